@@ -191,11 +191,33 @@ int main() {
                 ref_print[i] = print_tree(shared[i]);
                 for (int k = 0; k < 3; ++k) ref_val[i][k] = eval_at(shared[i], pts[k]);
             }
+            // conditioning: the optimised / flattened tree re-associates sums (operand order follows heap addresses), so on
+            // an ill-conditioned expression (sin of a huge number, a difference of nearly equal terms) even the SEQUENTIAL
+            // optimised tree evaluates differently from the plain one; such items say nothing about threads
+            bool cond_ok[3] = {true, true, true};
+            {
+                float so = eval_at(shared[i].optimized(), pts[0]);
+                float sf = eval_at(shared[i].flatten(), pts[1]);
+                cond_ok[0] = close(so, ref_val[i][0]);
+                cond_ok[1] = close(sf, ref_val[i][1]);
+                // ... and two evaluators built from one tree may associate differently too: a value that moves when the
+                // point moves by a few ulps (cos of a large product) cannot be compared between two builds
+                for (int k = 0; k < 3; ++k) for (float sgn : {1.0f, -1.0f}) {
+                    Eigen::Vector3f q = pts[k].array() * (1.0f + sgn * 4e-7f) + sgn * 4e-7f;
+                    float vq = eval_at(shared[i], q);
+                    if (!(std::fabs(vq - ref_val[i][k]) <= 0.25e-4f * (1 + std::fabs(vq) + std::fabs(ref_val[i][k]))) &&
+                        !(std::isnan(vq) && std::isnan(ref_val[i][k]))) cond_ok[k] = false;
+                }
+            }
             for (int t = 0; t < nth; ++t) {
                 if (!got_print[t][i].empty() && got_print[t][i] != ref_print[i]) ++bad;
                 for (int k = 0; k < 3; ++k) {
                     float g = got_val[t][i][k];
-                    if (g != 0.0f && !close(g, ref_val[i][k])) ++bad;
+                    if (!cond_ok[k]) continue;
+                    if (g != 0.0f && !close(g, ref_val[i][k])) {
+                        ++bad;
+                        if (getenv("VERIF_TH_DEBUG")) std::cerr << "BAD tree=" << i << " k=" << k << " got=" << g << " ref=" << ref_val[i][k] << " expr=" << print_tree(shared[i]) << "\n";
+                    }
                 }
             }
         }
